@@ -145,6 +145,9 @@ func cmdCheck(args []string) int {
 	if len(specs) == 0 {
 		return die("no function is under contract for this property")
 	}
+	for _, f := range ff.Findings {
+		knownFindingNames[f.Obligation] = true
+	}
 	quick, full := 3, 10
 	if *tier == "thorough" {
 		quick, full = 5, 60
